@@ -26,7 +26,7 @@ RULE = (
 )
 EXHAUSTIVE_PART = "per base configuration: all fault points of the classes body-exception, unserializable, unencodable, k-th filesystem call (plus LINE failpoints in the thorough tier)"
 ASSUMPTIONS = ["faults occur only at the enumerated points", "MemoryFS/NativeOSFS subclasses behave like their parents"]
-MONITORS = ["fault_free_control", "body_exception", "unserializable", "unencodable", "fs_call_fault", "line_failpoint"]
+MONITORS = ["fault_free_control", "body_exception", "unserializable", "unencodable", "fs_call_fault", "line_failpoint", "line_failpoint_loading"]
 REQUIRED = ["body_UnicodeEncodeError", "backup_after_inplace_chart_edit", "body_KeyboardInterrupt", "body_SystemExit", "body_CancelMutation", "body_StopIteration", "body_GeneratorExit",
             "unencodable_utf-8", "unencodable_cp1252", "unencodable_cp932", "unencodable_cp949", "fault_open_w_backup",
             "fault_open_w_output", "fault_write_backup", "fault_write_output", "fault_close", "partial_write",
@@ -121,7 +121,7 @@ def apply_body(s, op, ext):
         E.apply_real(s, op, [], ext)
 
 
-def enumerate_faults(base, n_props, n_charts, control_trace, line_events):
+def enumerate_faults(base, n_props, n_charts, control_trace, line_events, line0_events=0):
     faults = []
     script = body_script(base["ext"])
     for exc in ("ValueError", "KeyError", "Custom", "StopIteration", "KeyboardInterrupt", "SystemExit", "GeneratorExit", "CancelMutation",
@@ -145,6 +145,8 @@ def enumerate_faults(base, n_props, n_charts, control_trace, line_events):
             faults.append({"class": "fs", "k": k, "call": kind, "partial": True})
     for j in range(line_events):
         faults.append({"class": "line", "k": j})
+    for j in range(line0_events):
+        faults.append({"class": "line0", "k": j})
     return faults
 
 
@@ -179,12 +181,21 @@ def run(base, fault, want_lines=False):
         script = body_script(ext)
         lines = None
         fp = None
-        if want_lines or (fault and fault["class"] == "line"):
-            from ..failpoints import LineFailpoints
+        fp0 = None
+        lines0 = None
+        from ..failpoints import LineFailpoints
 
+        if want_lines or (fault and fault["class"] == "line"):
             fp = LineFailpoints(save_codes(), fail_at=fault["k"] if fault and fault["class"] == "line" else None)
+        if want_lines or (fault and fault["class"] == "line0"):
+            # failpoints in the loading half: from the call of mutate() up to the first statement of the body
+            fp0 = LineFailpoints(load_codes(), fail_at=fault["k"] if fault and fault["class"] == "line0" else None)
         try:
+            if fp0:
+                fp0.arm()
             with simfile.mutate(inp, output_filename=out, backup_filename=bak, try_encodings=tried, filesystem=world.fs) as s:
+                if fp0:
+                    lines0 = fp0.disarm()
                 snaps["S0"] = copy.deepcopy(s)
                 snaps["n_props"] = len(s)
                 snaps["n_charts"] = len(s.charts)
@@ -211,12 +222,14 @@ def run(base, fault, want_lines=False):
         finally:
             if fp:
                 lines = fp.disarm()
+            if fp0:
+                lines0 = fp0.disarm()
         trace = list(rec.log)
         after = world.snapshot()
         return {"before": before, "after": after, "trace": trace, "raised": raised, "thrown": thrown, "snaps": snaps,
                 "thrown_args": thrown_args,
                 "data": data, "in": world.rel(inp), "out": world.rel(out) if out else None, "bak": world.rel(bak) if bak else None,
-                "fired": rec.fired, "lines": lines, "world_kind": base["fs"], "enc": base["enc"]}
+                "fired": rec.fired, "lines": lines, "lines0": lines0, "world_kind": base["fs"], "enc": base["enc"]}
     finally:
         world.close()
 
@@ -229,6 +242,17 @@ def save_codes():
 
     return [simfile.mutate.__wrapped__.__code__, BaseSimfile.serialize.__code__, BaseCharts.serialize.__code__,
             SMChart.serialize.__code__, SSCChart.serialize.__code__]
+
+
+def load_codes():
+    import simfile
+    from simfile.base import BaseSimfile
+    from simfile.sm import SMChart, SMSimfile
+    from simfile.ssc import SSCSimfile
+
+    return [simfile.mutate.__wrapped__.__code__, simfile.open_with_detected_encoding.__code__, simfile.load.__code__,
+            simfile._detect_ssc.__code__, BaseSimfile.__init__.__code__, SMSimfile._parse.__code__, SSCSimfile._parse.__code__,
+            SMChart._from_msd.__code__]
 
 
 def make_exc(name):
@@ -314,7 +338,9 @@ def check(ctx, case):
         n_lines = len(ctl["lines"] or []) if case.get("failpoints") else 0
         if case.get("failpoints"):
             ctx.notes.setdefault("line_events_sample", [list(x) for x in (ctl["lines"] or [])][:60])
-        faults = enumerate_faults(base, ctl["snaps"]["n_props"], ctl["snaps"]["n_charts"], counted, n_lines)
+        n_lines0 = len(ctl["lines0"] or []) if case.get("failpoints") else 0
+        n_lines0 = min(n_lines0, 60) if base["size"] == 40 else n_lines0  # the parse loop of a big file repeats the same lines
+        faults = enumerate_faults(base, ctl["snaps"]["n_props"], ctl["snaps"]["n_charts"], counted, n_lines, n_lines0)
         ctx.features["fault_points_enumerated"] += len(faults)
     for fault in faults:
         one = {"base": base, "only": fault}
@@ -350,6 +376,13 @@ def judge(ctx, base, fault, r, cls, one):
         else:
             same = r["raised"] is r["thrown"] and getattr(r["raised"], "args", None) == r.get("thrown_args")
             ctx.expect(same, f"body-exception:{fault['exc']}-not-propagated-unchanged", **detail)
+        return
+
+    if fc == "line0":
+        ctx.mon("line_failpoint_loading")
+        ctx.expect(not changed, "line0-fault:files-changed-by-a-failure-while-loading", **detail)
+        ctx.expect(not writes, "line0-fault:write-events", **detail)
+        ctx.expect(isinstance(r["raised"], fsmon.InjectedFault), "line0-fault:exception-swallowed-or-translated", **detail)
         return
 
     if fc in ("int", "badreplace", "chart_without_notes", "unencodable"):
